@@ -191,5 +191,30 @@ def close_chan(ex, g, c):
     c.closed = True
     if c.sendq:
         raise GoPanic("send-on-closed-channel")
+    woke = bool(c.recvq)
     for w in list(c.recvq):
         unpark(ex, w.g, w.arm, ex.zero(c.etid) if c.etid is not None else None, False)
+    if woke:
+        # the woken goroutines may run before the closer's next instruction (real preemption):
+        # offer a context switch right after the close
+        g.force_yield = True
+
+
+def yield_now(ex, g):
+    """context switch offered between two instructions of g (nothing to re-execute)"""
+    runnable = [x for x in ex.gs if x.status == "run" and x.stack]
+    if len(runnable) <= 1 or ex.opts.get("no_preempt"):
+        return False
+    pb = ex.opts.get("preempt_bound")
+    if pb is not None and ex.preemptions >= pb:
+        return False
+    if g in runnable:
+        runnable.remove(g)
+        runnable.insert(0, g)
+    k = ex.choose([True] * len(runnable))
+    ex.sched_points += 1
+    if k == 0:
+        return False
+    ex.preemptions += 1
+    ex.cur = runnable[k]
+    return True
